@@ -1,24 +1,68 @@
-// S-harness for the per-thread executor of cocls (C05): coro_queue.h, suspend_point.h, async.h.
+// S-harness for the per-thread executor of cocls (C05): coro_queue.h, suspend_point.h, async.h, resume.h and the
+// scheduling side of thread_pool.h.
 // A case is a program of scripted coroutines (cocls::async<void> bodies interpreting per-coroutine scripts)
 // driven by ordinary code ("m" lines). The observable is the total event trace: which coroutine executes which
-// act of its script, in which order, at which nesting depth. Same grammar as lean/Drivers/C05.lean:
+// act of its script, in which order, at which nesting depth, on which thread. Same grammar as lean/Drivers/C05.lean:
 //   case <id> exec <via>      via = promise | mutex | queue : how `park`/`wake` are realised
 //   a <cid> <act>             append <act> to the script of coroutine <cid>
 //   m <act>                   ordinary code performs <act> now
 //   end
-// acts: wake:<d|a|r|x>:<ids> detach:<d|a|r|x>:<id> gather:<d|a>:<ids> park parkn pause swap start:<id> call:<id>
-//       join:<id> end enter leave leavex
+// acts: wake:<d|a|r|x|p>:<ids> detach:<d|a|r|x|p>:<id> gather:<d|a>:<ids> park parkn parkp wakep:<id> pause swap
+//       start:<id> startc:<id> spawn:<id> call:<id> join:<id> hop hopc end enter leave leavex
 //   mode x: the suspend point is held in a local and destroyed by stack unwinding (an exception leaves the block and is
 //   caught outside); leavex: the callback of install_queue_and_call ends by throwing (caught outside the call)
+//   mode p: parallel_resume(std::move(sp)) (resume.h); parkp: co_await parallel(future); wakep: resolve that future
+//   startc: async::operator(); spawn: a coroutine type whose initial_suspend is coro_queue::initial_awaiter
+//   hop: co_await thread_pool; hopc: co_await thread_pool::current()
+// Other threads. resume.h creates a std::thread per parallel resumption, thread_pool has a worker thread. The harness
+// schedules them deterministically, one thread at a time: `std::thread` inside resume.h is renamed to a recorder that
+// defers the start of the thread; the single pool worker is parked in a gate job between two jobs. Whenever ordinary
+// code of the main thread is outside every install_queue_and_call block, the deferred threads / pool jobs are run in
+// creation order, each to completion (`{p`/`{w` ... `}<is_active() of that thread afterwards>` in the event list)
+// while the main thread waits. This is one legal schedule of the real program.
 #include "common.h"
+#include <climits>
+#include <condition_variable>
+#include <functional>
+#include <mutex>
+#include <thread>
 #include <cocls/async.h>
 #include <cocls/future.h>
 #include <cocls/mutex.h>
 #include <cocls/queue.h>
 
+// ---- std::thread as seen by resume.h -------------------------------------------------------------------------------
+namespace vhx {
+struct fn_base {
+    virtual ~fn_base() {}
+    virtual void call() = 0;
+};
+template <typename F>
+struct fn_impl : fn_base {
+    F f;
+    explicit fn_impl(F &&x) : f(std::move(x)) {}
+    void call() override { f(); }
+};
+void defer_thread(std::unique_ptr<fn_base> f);
+}  // namespace vhx
+namespace std {
+struct verif_thread {
+    template <typename F>
+    explicit verif_thread(F &&f) {
+        vhx::defer_thread(std::unique_ptr<vhx::fn_base>(new vhx::fn_impl<std::decay_t<F>>(std::forward<F>(f))));
+    }
+    void detach() {}
+};
+}  // namespace std
+#define thread verif_thread
+#include <cocls/resume.h>
+#undef thread
+#include <cocls/thread_pool.h>
+
 using namespace cocls;
 
-enum Kind { WAKE, PARK, PARKN, PAUSE, SWAP, START, CALL, JOIN, END, ENTER, LEAVE, LEAVEX, BAD };
+enum Kind { WAKE, PARK, PARKN, PARKP, WAKEP, PAUSE, SWAP, START, STARTC, SPAWN, CALL, JOIN, HOP, HOPC, END, ENTER, LEAVE,
+            LEAVEX, BAD };
 
 struct Act {
     Kind k = BAD;
@@ -47,6 +91,15 @@ static std::vector<std::string> split_on(const std::string &s, char sep) {
     return out;
 }
 
+static char parse_mode(const std::string &m, bool rev) {
+    if (m == "a") return 'a';
+    if (rev) return 'd';
+    if (m == "r") return 'r';
+    if (m == "x") return 'x';
+    if (m == "p") return 'p';
+    return 'd';
+}
+
 static Act parse_act(const std::string &tok) {
     Act a;
     auto p = split_on(tok, ':');
@@ -54,23 +107,28 @@ static Act parse_act(const std::string &tok) {
     if ((k == "wake" || k == "gather") && (p.size() == 2 || p.size() == 3)) {
         a.k = WAKE;
         a.rev = k == "gather";
-        a.mode = p[1] == "a" ? 'a' : (p[1] == "r" && !a.rev ? 'r' : (p[1] == "x" && !a.rev ? 'x' : 'd'));
+        a.mode = parse_mode(p[1], a.rev);
         if (p.size() == 3)
             for (auto &x : split_on(p[2], ',')) { int v; if (to_nat(x, v)) a.ids.push_back(v); }
     } else if (k == "detach" && p.size() == 3) {
         a.k = WAKE;
-        a.mode = p[1] == "a" ? 'a' : (p[1] == "r" ? 'r' : (p[1] == "x" ? 'x' : 'd'));
+        a.mode = parse_mode(p[1], false);
         for (auto &x : split_on(p[2], ',')) { int v; if (to_nat(x, v)) a.ids.push_back(v); }
     } else if (p.size() == 1 && k == "park") a.k = PARK;
     else if (p.size() == 1 && k == "parkn") a.k = PARKN;
+    else if (p.size() == 1 && k == "parkp") a.k = PARKP;
     else if (p.size() == 1 && k == "pause") a.k = PAUSE;
     else if (p.size() == 1 && k == "swap") a.k = SWAP;
+    else if (p.size() == 1 && k == "hop") a.k = HOP;
+    else if (p.size() == 1 && k == "hopc") a.k = HOPC;
     else if (p.size() == 1 && k == "end") a.k = END;
     else if (p.size() == 1 && k == "enter") a.k = ENTER;
     else if (p.size() == 1 && k == "leave") a.k = LEAVE;
     else if (p.size() == 1 && k == "leavex") a.k = LEAVEX;
-    else if (p.size() == 2 && (k == "start" || k == "call" || k == "join")) {
-        if (to_nat(p[1], a.d)) a.k = k == "start" ? START : (k == "call" ? CALL : JOIN);
+    else if (p.size() == 2 && (k == "start" || k == "startc" || k == "spawn" || k == "call" || k == "join" || k == "wakep")) {
+        if (to_nat(p[1], a.d))
+            a.k = k == "start" ? START : k == "startc" ? STARTC : k == "spawn" ? SPAWN : k == "call" ? CALL
+                : k == "join" ? JOIN : WAKEP;
     }
     return a;
 }
@@ -79,7 +137,7 @@ struct Co {
     std::vector<Act> script;
     std::size_t pc = 0;
     bool spawned = false, done = false, running = false, woken = false;
-    int parkkind = 0;  // 0 not parked, 1 promise/future, 2 mutex, 3 queue
+    int parkkind = 0;  // 0 not parked, 1 promise/future, 2 mutex, 3 queue, 4 future through parallel()
     int starter = -2;  // coroutine that holds `fut` (-1: ordinary code)
     unsigned resumes = 0;
     promise<void> slot;
@@ -89,12 +147,25 @@ struct Co {
     std::unique_ptr<future<void>> fut;
 };
 
+// work handed to another thread, in creation order
+struct Pending {
+    bool pool = false;                    // a job of the thread pool (the worker is parked in the gate before it)
+    std::unique_ptr<vhx::fn_base> fn;     // the function of a deferred std::thread of resume.h
+};
+
 struct Case {
     int via = 1;
     bool shutdown = false;
     int depth = 0;
     std::vector<std::unique_ptr<Co>> co;
     std::vector<std::string> evs;
+    std::deque<Pending> pending;
+    // the pool and its gate
+    std::unique_ptr<thread_pool> pool;
+    std::mutex gmx;
+    std::condition_variable gcv;
+    int entered = -1, released = -1, ngates = 0, cur_gate = 0;
+    bool worker_active = false;
     Co &get(int c) {
         while ((int)co.size() <= c) co.emplace_back(new Co());
         return *co[c];
@@ -102,6 +173,68 @@ struct Case {
 };
 
 static Case *G = nullptr;
+
+void vhx::defer_thread(std::unique_ptr<vhx::fn_base> f) {
+    Pending p;
+    p.fn = std::move(f);
+    G->pending.push_back(std::move(p));
+}
+
+// ---- thread pool gate ----------------------------------------------------------------------------------------------
+static void gate(int k) {
+    std::unique_lock lk(G->gmx);
+    G->worker_active = coro_queue::is_active();
+    G->entered = k;
+    G->gcv.notify_all();
+    G->gcv.wait(lk, [&] { return G->released >= k; });
+}
+static void post_gate() {
+    int k = G->ngates++;
+    G->pool->run_detached([k] { gate(k); });
+}
+static void ensure_pool() {
+    if (G->pool) return;
+    G->pool.reset(new thread_pool(1));
+    post_gate();
+    std::unique_lock lk(G->gmx);
+    G->gcv.wait(lk, [&] { return G->entered == 0; });
+}
+static void pool_job_posted() {
+    post_gate();
+    Pending p;
+    p.pool = true;
+    G->pending.push_back(std::move(p));
+}
+
+// run everything that was handed to other threads, oldest first, one thread at a time, each to completion
+static void run_pending() {
+    while (!G->pending.empty()) {
+        Pending p = std::move(G->pending.front());
+        G->pending.pop_front();
+        bool act = false;
+        ++G->depth;
+        if (p.pool) {
+            if (!G->shutdown) G->evs.push_back("{w");
+            std::unique_lock lk(G->gmx);
+            G->released = G->cur_gate;
+            G->gcv.notify_all();
+            int next = ++G->cur_gate;
+            G->gcv.wait(lk, [&] { return G->entered == next; });
+            act = G->worker_active;
+        } else {
+            if (!G->shutdown) G->evs.push_back("{p");
+            vhx::fn_base *f = p.fn.get();
+            std::thread real([f, &act, &p] {
+                f->call();
+                p.fn.reset();  // the closure dies in its thread, as in the library
+                act = coro_queue::is_active();
+            });
+            real.join();
+        }
+        --G->depth;
+        if (!G->shutdown) G->evs.push_back(std::string("}") + (act ? "1" : "0"));
+    }
+}
 
 static void resumed(int id) {
     Co &c = G->get(id);
@@ -111,7 +244,24 @@ static void resumed(int id) {
 }
 static void suspending(int id) { G->get(id).running = false; }
 
-static async<void> body(int id);
+// a coroutine type that enters through the policy interface of coro_queue (initial_awaiter): no future, self-destroying
+struct ptask {
+    struct promise_type {
+        coro_queue q;
+        ptask get_return_object() { return {}; }
+        coro_queue::initial_awaiter initial_suspend() noexcept {
+            static_assert(coro_queue::initialize_policy());
+            return coro_queue::initial_awaiter(q);
+        }
+        std::suspend_never final_suspend() noexcept { return {}; }
+        void return_void() {}
+        void unhandled_exception() { std::terminate(); }
+    };
+};
+
+template <typename R>
+static R body_t(int id);
+static async<void> body(int id) { return body_t<async<void>>(id); }
 
 // one suspend point with the handles of the wakeable targets, in the order of `ids`
 static suspend_point<void> collect(const std::vector<int> &ids) {
@@ -120,8 +270,14 @@ static suspend_point<void> collect(const std::vector<int> &ids) {
         Co &c = G->get(t);
         if (!c.spawned) {
             c.spawned = true;
-            sp << body(t).detach();
-        } else if (c.parkkind) {
+            if (t % 3 == 1) {
+                // async::start(promise): the coroutine is bound to a promise, its handle comes back in a suspend point
+                c.fut.reset(new future<void>());
+                sp << body(t).start(c.fut->get_promise());
+            } else {
+                sp << body(t).detach();
+            }
+        } else if (c.parkkind && c.parkkind != 4) {
             int pk = c.parkkind;
             c.parkkind = 0;
             c.woken = true;
@@ -131,6 +287,17 @@ static suspend_point<void> collect(const std::vector<int> &ids) {
         }
     }
     return sp;
+}
+
+// resolve the future a coroutine awaits through parallel(): parallel::perform_resume creates a thread, returns nothing
+static void wake_parallel(int d) {
+    Co &c = G->get(d);
+    if (c.parkkind == 4) {
+        c.parkkind = 0;
+        c.woken = true;
+        suspend_point<bool> sp = c.slot();
+        if (!sp.empty() && !G->shutdown) G->evs.push_back("PARALLEL-HANDLE:" + std::to_string(d));
+    }
 }
 
 // `coro_queue::resume(h)` for every handle, in order: the same as dropping the suspend point when a queue is
@@ -156,7 +323,9 @@ static void drop_by_unwinding(const std::vector<int> &ids) {
 }
 
 struct swap_pause : std::suspend_always {
-    std::coroutine_handle<> await_suspend(std::coroutine_handle<> h) noexcept { return coro_queue::swap_coroutine(h); }
+    std::coroutine_handle<> await_suspend(std::coroutine_handle<> h) noexcept {
+        return coro_queue::resume_handle(coro_queue::swap_coroutine(h));
+    }
 };
 
 // park on a future, but leave through `coro_queue::resume_handle_next()`
@@ -170,7 +339,20 @@ struct park_next {
     void await_resume() { aw.await_resume(); }
 };
 
-static async<void> body(int id) {
+// co_await pool / co_await thread_pool::current(): the job is followed by a gate so that the worker parks again
+template <typename Awt>
+struct pool_hop {
+    Awt aw;
+    bool await_ready() noexcept { return false; }
+    void await_suspend(std::coroutine_handle<> h) {
+        aw.await_suspend(h);
+        pool_job_posted();
+    }
+    void await_resume() { aw.await_resume(); }
+};
+
+template <typename R>
+static R body_t(int id) {
     resumed(id);
     for (;;) {
         if (G->shutdown) break;
@@ -192,6 +374,9 @@ static async<void> body(int id) {
                     }
                 } else if (a.mode == 'x') {
                     drop_by_unwinding(a.ids);
+                } else if (a.mode == 'p') {
+                    suspend_point<void> sp = collect(a.ids);
+                    parallel_resume(std::move(sp));
                 } else {
                     suspend_point<void> sp = collect(a.ids);
                     if (a.mode == 'a') {
@@ -203,6 +388,10 @@ static async<void> body(int id) {
                         drop_via_resume(sp);
                     }
                 }
+                break;
+            }
+            case WAKEP: {
+                wake_parallel(a.d);
                 break;
             }
             case PARK: {
@@ -247,6 +436,17 @@ static async<void> body(int id) {
                 if (!G->get(id).woken && !G->shutdown) G->evs.push_back("SPURIOUS:" + std::to_string(id));
                 break;
             }
+            case PARKP: {
+                future<void> f;
+                me.slot = f.get_promise();
+                me.woken = false;
+                me.parkkind = 4;
+                suspending(id);
+                co_await parallel(f);
+                resumed(id);
+                if (!G->get(id).woken && !G->shutdown) G->evs.push_back("SPURIOUS:" + std::to_string(id));
+                break;
+            }
             case PAUSE: {
                 suspending(id);
                 co_await cocls::pause();
@@ -259,13 +459,41 @@ static async<void> body(int id) {
                 resumed(id);
                 break;
             }
-            case START: {
+            case HOP: {
+                ensure_pool();
+                suspending(id);
+                co_await pool_hop<thread_pool::co_awaiter>{G->pool->operator co_await()};
+                resumed(id);
+                break;
+            }
+            case HOPC: {
+                // current_awaiter binds a reference to *_current even outside the pool, so ask first
+                if (!thread_pool::current::is_stopped()) {
+                    suspending(id);
+                    co_await pool_hop<thread_pool::current::current_awaiter>{thread_pool::current().operator co_await()};
+                    resumed(id);
+                }
+                break;
+            }
+            case START:
+            case STARTC: {
                 Co &ch = G->get(a.d);
                 if (!ch.spawned) {
                     ch.spawned = true;
                     ch.starter = id;
                     ++G->depth;
-                    ch.fut.reset(new future<void>(body(a.d).start()));
+                    if (a.k == START) ch.fut.reset(new future<void>(body(a.d).start()));
+                    else ch.fut.reset(new future<void>(body(a.d)()));
+                    --G->depth;
+                }
+                break;
+            }
+            case SPAWN: {
+                Co &ch = G->get(a.d);
+                if (!ch.spawned) {
+                    ch.spawned = true;
+                    ++G->depth;
+                    body_t<ptask>(a.d);
                     --G->depth;
                 }
                 break;
@@ -306,24 +534,43 @@ static void main_act(const Act &a) {
             suspend_point<void> sp = coro_queue::create_suspend_point([&] { (void)collect(a.ids); });
         } else if (a.mode == 'x') {
             drop_by_unwinding(a.ids);
+        } else if (a.mode == 'p') {
+            suspend_point<void> sp = collect(a.ids);
+            parallel_resume(std::move(sp));
         } else {
             suspend_point<void> sp = collect(a.ids);
             if (a.mode == 'r') drop_via_resume(sp);
         }
         --G->depth;
-    } else if (a.k == START) {
+    } else if (a.k == WAKEP) {
+        wake_parallel(a.d);
+    } else if (a.k == START || a.k == STARTC) {
         Co &ch = G->get(a.d);
         if (!ch.spawned) {
             ch.spawned = true;
             ch.starter = -1;
             ++G->depth;
-            ch.fut.reset(new future<void>(body(a.d).start()));
+            if (a.k == START) ch.fut.reset(new future<void>(body(a.d).start()));
+            else ch.fut.reset(new future<void>(body(a.d)()));
+            --G->depth;
+        }
+    } else if (a.k == SPAWN) {
+        Co &ch = G->get(a.d);
+        if (!ch.spawned) {
+            ch.spawned = true;
+            ++G->depth;
+            body_t<ptask>(a.d);
             --G->depth;
         }
     }
 }
 
-static void print_line(const std::string &head) { vh::emit(head, G->evs); }
+// one output line for an "m" line; at the outermost level the other threads get their turn first
+static void print_line(const std::string &head, int level) {
+    if (level == 0) run_pending();
+    vh::emit(head + " a=" + std::to_string((int)coro_queue::is_active()) + " b=" + std::to_string((int)coro_queue::can_block()),
+             G->evs);
+}
 
 // executes lines until `leave` (returns 0), `leavex` (returns 2) or `end`/EOF (returns 1)
 static int run_lines(std::istream &in, int level) {
@@ -349,7 +596,7 @@ static int run_lines(std::istream &in, int level) {
                 ++G->depth;
                 try {
                     coro_queue::install_queue_and_call([&] {
-                        print_line("m enter a=" + std::to_string((int)coro_queue::is_active()));
+                        print_line("m enter", level + 1);
                         how = run_lines(in, level + 1);
                         // the callback ends by throwing: the trailer of install_queue_and_call runs during unwinding
                         if (how == 2) throw vh::test_exc(2);
@@ -358,16 +605,16 @@ static int run_lines(std::istream &in, int level) {
                 }
                 --G->depth;
                 if (how == 1) return 1;  // events of the trailer are printed with the `end` line
-                print_line(std::string(how == 2 ? "m leavex a=" : "m leave a=") + std::to_string((int)coro_queue::is_active()));
+                print_line(how == 2 ? "m leavex" : "m leave", level);
                 continue;
             }
             if (a.k == LEAVE || a.k == LEAVEX) {
                 if (level > 0) return a.k == LEAVE ? 0 : 2;
-                print_line("m " + w[1] + " a=" + std::to_string((int)coro_queue::is_active()));
+                print_line("m " + w[1], level);
                 continue;
             }
             main_act(a);
-            print_line("m " + w[1] + " a=" + std::to_string((int)coro_queue::is_active()));
+            print_line("m " + w[1], level);
             continue;
         }
         std::cout << "bad-op\n";
@@ -381,13 +628,15 @@ static void run_case(std::istream &in, int via) {
     G = &cs;
     coro_queue::instance = nullptr;
     run_lines(in, 0);
+    run_pending();
     auto &rq = coro_queue::queue_impl::instance._queue;
     std::ostringstream head;
     unsigned susp = 0;
     for (auto &c : cs.co) if (c->spawned && !c->done) ++susp;
-    head << "end a=" << (int)coro_queue::is_active() << " q=" << rq.size() << " susp=" << susp << " res=";
+    head << "end a=" << (int)coro_queue::is_active() << " b=" << (int)coro_queue::can_block() << " q=" << rq.size()
+         << " susp=" << susp << " res=";
     for (std::size_t i = 0; i < cs.co.size(); ++i) head << (i ? "," : "") << cs.co[i]->resumes;
-    print_line(head.str());
+    vh::emit(head.str(), cs.evs);
     std::cout.flush();
     // shut the case down: everything still suspended is resumed and returns at once. Done by hand (queue installed
     // and drained here) so that the verdict on the case never depends on the code under test once more.
@@ -399,13 +648,25 @@ static void run_case(std::istream &in, int via) {
             rq.pop_front();
             h.resume();
         }
+        run_pending();
         std::vector<int> ids;
-        for (std::size_t i = 0; i < cs.co.size(); ++i)
-            if (cs.co[i]->parkkind) ids.push_back((int)i);
-        if (ids.empty()) break;
+        bool par = false;
+        for (std::size_t i = 0; i < cs.co.size(); ++i) {
+            if (cs.co[i]->parkkind == 4) { wake_parallel((int)i); par = true; }
+            else if (cs.co[i]->parkkind) ids.push_back((int)i);
+        }
+        if (ids.empty() && !par && rq.empty() && cs.pending.empty()) break;
         { suspend_point<void> sp = collect(ids); }
     }
     coro_queue::instance = nullptr;
+    if (cs.pool) {
+        {
+            std::unique_lock lk(cs.gmx);
+            cs.released = INT_MAX;
+            cs.gcv.notify_all();
+        }
+        cs.pool.reset();
+    }
     cs.evs.clear();
     cs.co.clear();
     G = nullptr;
